@@ -120,6 +120,7 @@ class TrI(base.Tr):
             raise Unsupported("parameter list")
         self.params = [x.arg for x in a.args] + [x.arg for x in a.kwonlyargs]
         self.locals = set(self.params)
+        self.order = list(self.params)   # locals in the order of their first binding
         self.owned = set()        # locals bound to a container / scratch the function built
         self.alias = {}           # snapshot -> the owned local it was taken from
         self.stale = set()
@@ -136,6 +137,8 @@ class TrI(base.Tr):
 
     def rebind(self, name, owned=False, snapshot_of=None):
         self.locals.add(name)
+        if name not in self.order:
+            self.order.append(name)
         self.stale.discard(name)
         self.alias.pop(name, None)
         for a in [a for a, b in self.alias.items() if b == name]:
@@ -457,13 +460,18 @@ class TrI(base.Tr):
             return "(%s <~ %s ;;\n   %s)" % (self.var(n), val, nxt())
         raise Unsupported("call statement")
 
+    def by_binding(self, names):
+        names = list(names)
+        known = [n for n in self.order if n in names]
+        return known + sorted(n for n in names if n not in known)
+
     def live_join_vars(self, s, before):
         a, b = assigned(s.body), assigned(s.orelse)
         out = []
         for n in sorted(a | b):
             if n in before or (n in a and n in b):
                 out.append(n)
-        return out
+        return self.by_binding(out)
 
     def if_stmt(self, s, nxt):
         before = set(self.locals)
@@ -519,7 +527,7 @@ class TrI(base.Tr):
             if target not in (None, t):
                 raise Unsupported("handlers raising different exceptions")
             target = t
-        vs = sorted(assigned(s.body))
+        vs = self.by_binding(assigned(s.body))
         inner = self.stmts(s.body, lambda: "(mret %s)" % self.tuple_of(vs))
         a = self.fresh("acc")
         return "(%s <~ a_try_reraise %s [%s] %s ;; let %s := %s in\n   %s)" % (
@@ -560,7 +568,7 @@ class TrI(base.Tr):
         else:
             raise Unsupported("for target")
         before = set(self.locals)
-        vs = sorted(n for n in assigned(s.body) if n in before and n not in tnames)
+        vs = self.by_binding(n for n in assigned(s.body) if n in before and n not in tnames)
         if len(tnames) == 2:
             bind = "pr <~ a_unpair %s ;; let (%s, %s) := pr in " % (x, self.var(tnames[0]), self.var(tnames[1]))
         else:
